@@ -42,7 +42,30 @@ pub fn json_text(form: &str, keys: &[String], vals: &[f64]) -> String {
     }
 }
 
-pub fn exec(op: &str, _sp: &str, v: &[V]) -> Out {
+/// A streaming map input that hands the visitor one entry at a time and - unlike serde's
+/// `MapDeserializer` or serde_json - does NOT itself complain about entries the visitor leaves
+/// unread: whether a trailing duplicate / unknown field is rejected is then decided by the crate's
+/// visitor alone (spelling "stream" of `de_map`).
+struct Stream {
+    items: Vec<(String, f64)>,
+    pos: usize,
+}
+impl<'de> serde::de::MapAccess<'de> for Stream {
+    type Error = VErr;
+    fn next_key_seed<K: serde::de::DeserializeSeed<'de>>(&mut self, seed: K) -> Result<Option<K::Value>, VErr> {
+        match self.items.get(self.pos) {
+            Some((k, _)) => seed.deserialize(serde::de::value::StrDeserializer::new(k)).map(Some),
+            None => Ok(None),
+        }
+    }
+    fn next_value_seed<S: serde::de::DeserializeSeed<'de>>(&mut self, seed: S) -> Result<S::Value, VErr> {
+        let x = self.items[self.pos].1;
+        self.pos += 1;
+        seed.deserialize(serde::de::value::F64Deserializer::new(x))
+    }
+}
+
+pub fn exec(op: &str, sp: &str, v: &[V]) -> Out {
     match op {
         "ser_json" => {
             let x = tf(&v[0]);
@@ -87,6 +110,10 @@ pub fn exec(op: &str, _sp: &str, v: &[V]) -> Out {
             let keys = sl(&v[0]);
             let vals = fl(&v[1]);
             let pairs: Vec<(String, f64)> = keys.into_iter().zip(vals.into_iter()).collect();
+            if sp == "stream" {
+                let de = serde::de::value::MapAccessDeserializer::new(Stream { items: pairs, pos: 0 });
+                return res(TwoFloat::deserialize(de).map_err(|e| e.to_string()));
+            }
             let de: MapDeserializer<_, VErr> = MapDeserializer::new(pairs.into_iter());
             res(TwoFloat::deserialize(de).map_err(|e| e.to_string()))
         }
